@@ -170,6 +170,7 @@ func (r *FnRun) execInstr(st *State, in ssa.Instruction, b *ssa.BasicBlock) bool
 		c := r.val(st, x.Cap)
 		r.check(st, "safe.make", "", x, sAnd(sx("<=", "0", l.S), sx("<=", l.S, c.S)), "make: 0 <= len <= cap")
 		p := r.allocObj(st, "mk")
+		st.assume(sEq(sx("alen", p), c.S))
 		et := x.Type().Underlying().(*types.Slice).Elem()
 		if kindOf(et) == KInt {
 			r.setHeap(st, "A", sx("store", st.heap["A"], p, "((as const (Array Int Int)) 0)"))
@@ -338,8 +339,11 @@ func (r *FnRun) makeIface(st *State, v Val, from types.Type, to types.Type) Val 
 	switch v.K {
 	case KRef:
 		out.Pay = v.S
-		if v.S == "null" {
-			// typed nil pointer in an interface: keep tag, null payload
+		if v.S != "null" && !strings.HasPrefix(v.S, "(obj ") {
+			// modelling assumption check: pointers stored in interfaces point to whole objects
+			if _, isPtr := from.Underlying().(*types.Pointer); isPtr && r.C != nil {
+				r.check(st, "model", "iface_whole_object", nil, sOr(sEq(v.S, "null"), sx("(_ is obj)", v.S)), "pointer converted to an interface points to a whole object (modelling assumption of interface payloads)")
+			}
 		}
 	case KInt:
 		out.Pay = sx("ibox", v.S)
@@ -869,6 +873,7 @@ func (r *FnRun) execConvert(st *State, x *ssa.Convert) {
 		n := sx("blen", v.S)
 		st.assume(sEq(sx("seqOf", arr, "0", n), v.S))
 		r.setHeap(st, "A", sx("store", st.heap["A"], p, arr))
+		st.assume(sEq(sx("alen", p), n))
 		st.vals[x] = Val{K: KSlice, T: to, Bas: p, Off: "0", Len: n, Cap: n}
 	case fk == KSeq && tk == KSeq:
 		st.vals[x] = v
